@@ -364,6 +364,7 @@ fn main() {
             }
             "chain_link" => chain_link(p[1].parse().unwrap()),
             "cert_hash" => cert_hash(p[1]),
+            "cert_roundtrip" => cert_roundtrip(),
             "pm_hash" => pm_hash(p[1]),
             "epoch_gap" => {
                 let a = Epoch(p[1].parse().unwrap());
@@ -491,4 +492,43 @@ fn pm_hash(spec_hex: &str) -> String {
         (Some(a), Some(b)) => format!("{} {}", if a.compute_hash() == b.compute_hash() { "equal-digests" } else { "different-digests" }, if a == b { "equal-messages" } else { "different-messages" }),
         _ => "unsupported".to_string(),
     }
+}
+
+
+/// certificates of a generated chain (genesis + standard, several signed entity types): Certificate -> CertificateMessage -> JSON text
+/// -> CertificateMessage -> Certificate must preserve every field, the recomputed hash and the signed message
+fn cert_roundtrip() -> String {
+    use mithril_common::entities::{CardanoDbBeacon, Certificate, CertificateSignature, SignedEntityType};
+    use mithril_common::messages::CertificateMessage;
+    use mithril_common::test::builder::CertificateChainBuilder;
+    let chain = CertificateChainBuilder::new().with_total_certificates(4).with_certificates_per_epoch(2).build();
+    let mut certs: Vec<Certificate> = chain.certificates_chained.clone();
+    // the same multi-signature under every signed entity type (the conversion does not look inside)
+    let base = certs[0].clone();
+    if let CertificateSignature::MultiSignature(_, sig) = &base.signature {
+        for e in [SignedEntityType::MithrilStakeDistribution(Epoch(7)), SignedEntityType::CardanoStakeDistribution(Epoch(8)),
+                  SignedEntityType::CardanoDatabase(CardanoDbBeacon::new(9, 10)), SignedEntityType::CardanoTransactions(Epoch(11), BlockNumber(12)),
+                  SignedEntityType::CardanoBlocksTransactions(Epoch(13), BlockNumber(14), mithril_common::entities::BlockNumberOffset(15))] {
+            let mut c = base.clone();
+            c.signature = CertificateSignature::MultiSignature(e, sig.clone());
+            c.previous_hash = "previous-hash-with-\"quotes\"-and-\u{e9}".to_string();
+            c.hash = c.try_compute_hash().unwrap();
+            certs.push(c);
+        }
+    }
+    let mut bad = Vec::new();
+    for (i, c) in certs.iter().enumerate() {
+        let msg: CertificateMessage = match c.clone().try_into() { Ok(m) => m, Err(_) => { bad.push(format!("{}:to-message-failed", i)); continue; } };
+        let text = serde_json::to_string(&msg).unwrap();
+        let msg2: CertificateMessage = match serde_json::from_str(&text) { Ok(m) => m, Err(_) => { bad.push(format!("{}:json-failed", i)); continue; } };
+        let back: Certificate = match msg2.try_into() { Ok(b) => b, Err(_) => { bad.push(format!("{}:from-message-failed", i)); continue; } };
+        let same_hash = back.try_compute_hash().ok() == c.try_compute_hash().ok() && back.hash == c.hash;
+        let same_fields = back.previous_hash == c.previous_hash && back.epoch == c.epoch && back.metadata == c.metadata && back.protocol_message == c.protocol_message
+            && back.signed_message == c.signed_message && back.signed_entity_type() == c.signed_entity_type() && back.is_genesis() == c.is_genesis()
+            && back.aggregate_verification_key.to_json_hex().ok() == c.aggregate_verification_key.to_json_hex().ok()
+            && back.signature.to_bytes_hex_for_certificate_hash().ok() == c.signature.to_bytes_hex_for_certificate_hash().ok();
+        if !same_hash { bad.push(format!("{}:hash-changed", i)); }
+        if !same_fields { bad.push(format!("{}:field-changed", i)); }
+    }
+    if bad.is_empty() { format!("roundtrip ok over {} certificates", certs.len()) } else { format!("roundtrip VIOLATED {}", bad.join(" ")) }
 }
